@@ -627,10 +627,22 @@ class MultiPatchMapping(Mapping):
 class MappedDomain(BasicDomain):
     """."""
 
-    @cacheit
     def __new__(cls, mapping, logical_domain):
         assert(isinstance(mapping, Mapping))
         assert(isinstance(logical_domain, BasicDomain))
+        # two domains with the same name, patches and boundary compare equal whatever their
+        # interfaces are: the connectivity is part of the cache key
+        connectivity = getattr(logical_domain, 'connectivity', None)
+        key = ()
+        if connectivity is not None:
+            key = tuple(sorted((str(k), str(v.minus.domain), v.minus.axis, v.minus.ext,
+                                str(v.plus.domain), v.plus.axis, v.plus.ext, str(v.ornt))
+                               for k, v in connectivity.items()))
+        return cls._cached_new(mapping, logical_domain, key)
+
+    @classmethod
+    @cacheit
+    def _cached_new(cls, mapping, logical_domain, key):
         if isinstance(logical_domain, Domain):
             kwargs = dict(
             dim            = logical_domain._dim,
